@@ -47,6 +47,7 @@ func propC12(c *Ctx) propInfo {
 	c.floor("E9.K2-pairing", 10)
 	c.floor("E9.K5-request-protocol", 8)
 	c.floor("E9.W-status-writers", 4)
+	c.cipherContinuity() // a call gets its own answer only while the rx/tx streams stay in step
 	return propInfo{
 		explanation: "Static structural clauses of C12 (DESIGN.md §4 C12): guarded-by table for Connection and Client under a must-lockset dataflow (summaries for unexported callees), lock/unlock pairing on all return paths, no blocking operation while a lock is held, acyclic lock order, frozen writers of the connection status, and the request protocol (callback registered before send, unregistered by defer, buffered reply channel, timeout context, dispatcher removes the entry in the critical section of the lookup and sends at most once, encryptedConn.send only under Connection.mu or during the unpublished handshake). Decides these necessary conditions, not liveness, reconnect timing, goroutine growth or data races outside the table. Reconnect: every attempt has its own deadline and the retry loop ends only with a successful attempt (K9).",
 		assumptions: []string{"lock identity is type based (one Connection/Client instance per function)", "sync primitives behave as documented"},
